@@ -66,3 +66,44 @@ pub fn any_duration() -> Duration {
     kani::assume(nanos < 1_000_000_000);
     Duration::new(secs, nanos)
 }
+
+/// Symbolic clock: harnesses stub `Instant::now` with `fake_now` and set `NOW` themselves.
+pub static mut NOW: (i64, u32) = (0, 0);
+pub fn fake_now() -> Instant {
+    unsafe { instant_from(NOW.0, NOW.1) }
+}
+pub fn set_now(i: Instant) {
+    let p = instant_parts(i);
+    unsafe { NOW = p }
+}
+/// (secs, nanos) comparison and difference without wide multiplications (cheap for the SAT back end)
+pub fn ge(a: Instant, b: Instant) -> bool {
+    let (a, b) = (instant_parts(a), instant_parts(b));
+    a.0 > b.0 || (a.0 == b.0 && a.1 >= b.1)
+}
+pub fn gt(a: Instant, b: Instant) -> bool {
+    let (a, b) = (instant_parts(a), instant_parts(b));
+    a.0 > b.0 || (a.0 == b.0 && a.1 > b.1)
+}
+/// a - b as (secs, nanos), requires ge(a, b)
+pub fn diff(a: Instant, b: Instant) -> (u64, u32) {
+    let (a, b) = (instant_parts(a), instant_parts(b));
+    if a.1 >= b.1 {
+        ((a.0 - b.0) as u64, a.1 - b.1)
+    } else {
+        ((a.0 - b.0 - 1) as u64, a.1 + 1_000_000_000 - b.1)
+    }
+}
+/// a + (secs, nanos) as instant parts, nanos < 1e9, no overflow assumed by the caller
+pub fn plus(a: Instant, d: (u64, u32)) -> (i64, u32) {
+    let a = instant_parts(a);
+    let n = a.1 + d.1;
+    if n >= 1_000_000_000 {
+        (a.0 + d.0 as i64 + 1, n - 1_000_000_000)
+    } else {
+        (a.0 + d.0 as i64, n)
+    }
+}
+pub fn dur_parts(d: Duration) -> (u64, u32) {
+    (d.as_secs(), d.subsec_nanos())
+}
